@@ -108,25 +108,42 @@ Print Assumptions C45_unstarted_close_differs.
    code as it is.  An execution of a program = a tree [xt] of C-level activations (segments);
    [word] = the events it emits.  [complete] only asks that every node names a function and a
    segment that ran to its C return (decided from the outcome, not from the tokens).
-   prog_ok fx: tflag -> the end of the body is unreachable; and fx or no return inside
-   try/finally (the known finding, C45_early_return_refuted). *)
+   [cvar] = which variant of the generated code (as_is; wrap_fixed; g_not_inlined = the seeded
+   guard). *)
 
 (* THE BALANCE THEOREM for programs: every execution of every program emits a Dyck word with
    matching ids, line events inside their activation, empty stack at the end; the nesting is the
-   execution tree; exactly one start and one end event per activation / generator segment *)
-Theorem C45_program_events_balanced : forall fx prog x t lt,
-  prog_ok fx prog = true -> complete all_true fx prog x = true ->
-  exists n, to_node all_true fx prog x = Some n /\
-            word all_true fx t lt prog x = ev_cy t fx lt n /\
-            parse (word all_true fx t lt prog x) [] [] = Some [shape_of n] /\
-            count_class CStart (word all_true fx t lt prog x) = size n /\
-            count_class CEnd (word all_true fx t lt prog x) = size n.
+   execution tree; exactly one start and one end event per activation / generator segment.
+   For every code variant g whose fall-off guard holds for every kind; prog_ok g fx asks
+   (a) tflag -> end of body unreachable, (b) fx or no return inside try/finally (finding
+   return_inside_try_finally), (c) no cpdef function entered through its Python wrapper unless the
+   wrapper's second unwind event is gone (finding cpdef_wrapper_raise_double_return). *)
+Theorem C45_program_events_balanced : forall g fx prog x t lt,
+  (forall k, cv_fall g k = true) -> prog_ok g fx prog = true -> complete g fx prog x = true ->
+  exists n, to_node g fx prog x = Some n /\
+            word g fx t lt prog x = ev_cy t fx lt n /\
+            parse (word g fx t lt prog x) [] [] = Some [shape_of n] /\
+            count_class CStart (word g fx t lt prog x) = size n /\
+            count_class CEnd (word g fx t lt prog x) = size n.
 Proof. exact program_events_balanced. Qed.
 Print Assumptions C45_program_events_balanced.
 
-(* ... for any guard that is true for every kind: each segment reads as a clean M_Trace node *)
+(* the code as it is, outside the two finding classes *)
+Theorem C45_program_events_balanced_partial : forall prog x t lt,
+  prog_ok as_is false prog = true -> complete as_is false prog x = true ->
+  exists n, to_node as_is false prog x = Some n /\
+            parse (word as_is false t lt prog x) [] [] = Some [shape_of n].
+Proof.
+  intros prog x t lt Hp Hc.
+  destruct (program_events_balanced as_is false prog x t lt (fun _ => eq_refl) Hp Hc)
+    as (n & A & _ & B & _).
+  exists n. split; assumption.
+Qed.
+Print Assumptions C45_program_events_balanced_partial.
+
+(* each segment reads as a clean M_Trace node *)
 Theorem C45_program_node : forall g fx prog,
-  (forall k, g k = true) -> prog_ok fx prog = true ->
+  (forall k, cv_fall g k = true) -> prog_ok g fx prog = true ->
   forall x, complete g fx prog x = true ->
     exists n, to_node g fx prog x = Some n /\ clean n = true /\
               forall t lt, word g fx t lt prog x = ev_cy t fx lt n.
@@ -136,8 +153,8 @@ Print Assumptions C45_program_node.
 (* the fall-off event is needed for EVERY kind: a guard that is false for one kind leaves the
    start event of a one-statement function of that kind unmatched *)
 Theorem C45_falloff_guard_necessary : forall g k,
-  g k = false ->
-  prog_ok false (w_prog k) = true /\ complete g false (w_prog k) w_tree = true /\
+  cv_fall g k = false -> cv_wrap2 g = false ->
+  prog_ok g false (w_prog k) = true /\ complete g false (w_prog k) w_tree = true /\
   word g false Legacy false (w_prog k) w_tree = [(KCall, 0)] /\
   well_nested (word g false Legacy false (w_prog k) w_tree) = false.
 Proof. exact falloff_guard_necessary. Qed.
@@ -145,14 +162,26 @@ Print Assumptions C45_falloff_guard_necessary.
 
 (* "if tracing and not self.is_inlined and not self.body.is_terminator" on list(genexpr) *)
 Theorem C45_not_inlined_guard_refuted :
-  prog_ok false s_prog = true /\
+  prog_ok g_not_inlined false s_prog = true /\
   complete g_not_inlined false s_prog s_tree = true /\
   word g_not_inlined false Legacy false s_prog s_tree = [(KCall, 0); (KCall, 1); (KRet, 0)] /\
   parse (word g_not_inlined false Legacy false s_prog s_tree) [] [] = None /\
-  word all_true false Legacy false s_prog s_tree = [(KCall, 0); (KCall, 1); (KRet, 1); (KRet, 0)] /\
-  parse (word all_true false Legacy false s_prog s_tree) [] [] = Some [Sh 0 [Sh 1 []]].
+  word as_is false Legacy false s_prog s_tree = [(KCall, 0); (KCall, 1); (KRet, 1); (KRet, 0)] /\
+  parse (word as_is false Legacy false s_prog s_tree) [] [] = Some [Sh 0 [Sh 1 []]].
 Proof. exact seeded_guard_refuted. Qed.
 Print Assumptions C45_not_inlined_guard_refuted.
+
+(* finding: a cpdef function that raises, called through its Python wrapper: call, return, return *)
+Theorem C45_cpdef_wrapper_double_unwind_refuted :
+  complete as_is false c_prog c_tree = true /\
+  word as_is false Legacy false c_prog c_tree = [(KCall, 0); (KRet, 0); (KRet, 0)] /\
+  parse (word as_is false Legacy false c_prog c_tree) [] [] = None /\
+  prog_ok as_is false c_prog = false /\
+  prog_ok wrap_fixed false c_prog = true /\
+  word wrap_fixed false Legacy false c_prog c_tree = [(KCall, 0); (KRet, 0)] /\
+  parse (word wrap_fixed false Legacy false c_prog c_tree) [] [] = Some [Sh 0 []].
+Proof. exact cpdef_wrapper_double_unwind_refuted. Qed.
+Print Assumptions C45_cpdef_wrapper_double_unwind_refuted.
 
 (* the compiler's is_terminator flag is sound: such a body never completes normally, so the
    guarded fall-off code is never needed when it is omitted *)
@@ -161,7 +190,7 @@ Theorem C45_terminator_sound : forall fx gen n d b o,
 Proof. intros fx gen n d b o. exact (proj1 (proj2 (term_sound fx gen n)) d b o). Qed.
 Print Assumptions C45_terminator_sound.
 
-(* an inlined generator expression (and a plain function) is ONE C-level activation *)
+(* an inlined generator expression is ONE C-level activation *)
 Theorem C45_inlined_single_segment : forall g fx fn n o c,
   f_kind fn = KGen true c -> count_yield (fst (run g fx fn n o)) = 0.
 Proof. exact inlined_single_segment. Qed.
@@ -169,7 +198,7 @@ Print Assumptions C45_inlined_single_segment.
 
 (* the fall-off macro is present in the generated text iff guard and not is_terminator (static tie) *)
 Theorem C45_epilogue_fall_iff : forall g k tf,
-  In EFall (epilogue g k tf) <-> (g k = true /\ tf = false).
+  In EFall (epilogue g k tf) <-> (cv_fall g k = true /\ tf = false).
 Proof. exact epilogue_fall_iff. Qed.
 Print Assumptions C45_epilogue_fall_iff.
 
